@@ -77,6 +77,9 @@ func (e *Engine) readContracts() error {
 			if c.Func == "pure-callees" {
 				continue
 			}
+			if old, dup := e.assumed[c.Func]; dup && old != c {
+				return fmt.Errorf("%s:%d: a second assumed contract for %s (the first is at %s:%d): keep one", c.File, c.Line, c.Func, old.File, old.Line)
+			}
 			e.assumed[c.Func] = c
 		}
 		e.files = append(e.files, cf)
@@ -243,6 +246,9 @@ func (e *Engine) load(dirs []string, extra []string) error {
 		}
 		for _, c := range cf.Contracts {
 			if c.Assumed {
+				if old, dup := e.assumed[c.Func]; dup && old != c {
+					return fmt.Errorf("%s:%d: a second assumed contract for %s (the first is at %s:%d): the later one would silently replace the earlier; keep one", c.File, c.Line, c.Func, old.File, old.Line)
+				}
 				e.assumed[c.Func] = c
 				continue
 			}
